@@ -854,7 +854,7 @@ func (e *Engine) inBounds(idx *Term, n int) *Term {
 
 func (e *Engine) indexAddr(st *State, fr *Frame, x *ssa.IndexAddr) Value {
 	base := e.val(st, fr, x.X)
-	idx := st.resolve(e.idx64(st, fr, x.Index))
+	idx := e.uniqueValue(st, st.resolve(e.idx64(st, fr, x.Index)))
 	switch b := base.(type) {
 	case *PtrV: // pointer to array
 		e.guard(st, e.ts.Bool(b.Obj != 0), "nil dereference")
@@ -1018,4 +1018,32 @@ func (e *Engine) nativeImplements(name string, t types.Type) bool {
 		return t.String() == "error"
 	}
 	return false
+}
+
+// uniqueValue: if the path condition forces the (non-constant) index term t to a
+// single value, return that constant (and remember it), so that loads and stores
+// through it do not degrade into ite-chains over the whole array. One witness
+// evaluation plus one solver query per distinct term and state lineage.
+func (e *Engine) uniqueValue(st *State, t *Term) *Term {
+	if t.IsConst() || e.cfg.Concrete != nil || len(st.wit) == 0 {
+		return t
+	}
+	if st.multi[t.ID] {
+		return t
+	}
+	w := st.wit[len(st.wit)-1]
+	v := e.ts.BV(e.ts.Eval(t, w.m, w.cache), t.W)
+	// a second witness with a different value settles it without a query
+	for _, w2 := range st.wit {
+		if e.ts.Eval(t, w2.m, w2.cache).Cmp(v.Val) != 0 {
+			st.multi[t.ID] = true
+			return t
+		}
+	}
+	if e.feasible(st, e.ts.Ne(t, v)) == Unsat {
+		st.known[t.ID] = v
+		return v
+	}
+	st.multi[t.ID] = true
+	return t
 }
